@@ -38,6 +38,7 @@ def check(ctx):
     ctx.attempt(_deadparam)
     ctx.attempt(_sibling_verifiers)
     ctx.attempt(config_separators)
+    ctx.attempt(decompiled_text_is_typed)
     ctx.attempt(_direction_writer)
     ctx.attempt(config_setters_keep_false)
     from .layouts import layout_classes      # the config reader validates `layout.<name>` against this table
@@ -582,6 +583,32 @@ def config_separators(ctx, rule='TBL'):
               f"the split pattern {pat!r} no longer matches {missing}: a setting written `name{missing[0] if missing else ''}value` is "
               f"taken for a single unknown name and rejected with ValueError although it is valid config text",
               key=f"{rule}|Config._set_str_to_values|separators|{''.join(missing)}", where=common.loc(fi, splits[0]))
+
+
+def decompiled_text_is_typed(ctx, rule='TBL'):
+    """Config.decompile_to_text joins its pieces with ',' and the reader splits
+    on ',' / ';' (and name from value on '.', '=', ':').  Every piece must
+    therefore come from the typed writer (attrib_and_val_to_str: booleans,
+    integers, n/s/e/w, layout names); free text interpolated into a piece
+    (a name, a source tag) can contain the separators and is cut up when the
+    text is read back - ValueError in the middle of PLSSDesc(...) / Tract(...)
+    for the config that is handed down."""
+    fi = ctx.repo.func('Config.decompile_to_text')
+    construct = 'Config.decompile_to_text writes typed settings only'
+    typed = set(ctx.fold.get_attr('config.config', 'Config', '_CONFIG_ATTRIBUTES'))
+    n = 0
+    for c in walk_local(fi.node):
+        if isinstance(c, ast.Call) and isinstance(c.func, ast.Attribute) and c.func.attr in ('append', 'extend', 'insert') and c.args:
+            n += 1
+            v = c.args[-1]
+            free = [x for x in ast.walk(v) if isinstance(x, ast.Attribute) and norm(x.value) == 'self' and x.attr not in typed]
+            ctx.check(not free, rule, construct,
+                      detail_bad=f"`{norm(c)[:70]}` writes self.{free[0].attr if free else ''} as free text: a value that contains ',' "
+                                 f"';' or '.' (\"Williams Co., ND\") is split into bogus settings when the text is read back "
+                                 f"(Config(cfg), the config handed to every Tract), which raises ValueError mid-parse",
+                      key=f"{rule}|Config.decompile_to_text|free-text|{free[0].attr if free else ''}", where=common.loc(fi, c))
+    if n == 0:
+        ctx.undecided(rule, construct, 'no piece is appended')
 
 
 def _direction_writer(ctx):
